@@ -104,6 +104,9 @@ class KernelInterpolation(darsia.Model):
 
         """
         self.kernel = kernel
+        # The kernel matrix depends on the kernel
+        if hasattr(self, "Xinv"):
+            del self.Xinv
 
     def setup_kernel_problem(self) -> None:
         """Setup of linear kernel problem."""
